@@ -389,6 +389,10 @@ func setPatchDiffElementContext(patch []patchElement, d *DiffElement) ([]patchEl
 		// Not an array
 		return patch, nil
 	}
+	if firstIndex < 0 {
+		// The end of an array ("-") is not an element that can be tested.
+		return nil, fmt.Errorf("JSON Patch test op addresses a nonexistent element: %q", patch[0].Path)
+	}
 	path, err = readPointer(patch[1].Path)
 	if err != nil {
 		return nil, err
@@ -446,7 +450,7 @@ func setPatchDiffElementContext(patch []patchElement, d *DiffElement) ([]patchEl
 		return nil, fmt.Errorf("expected path for array. got %q", patch[2].Path)
 	}
 	switch {
-	case (patch[2].Op == "test" || patch[2].Op == "add") && thirdIndex <= secondIndex:
+	case patch[1].Op == "test" && (patch[2].Op == "test" || patch[2].Op == "add") && thirdIndex <= secondIndex:
 		// Before and after context.
 		before, err := NewJsonNode(patch[0].Value)
 		if err != nil {
